@@ -46,7 +46,7 @@ def rgb(name):
 
 
 def plan(tier, seed):
-    per = 60 if tier == "quick" else 900
+    per = 150 if tier == "quick" else 1200
     descs = [{"kind": "random", "n": per} for _ in range(13)]
     reps = 1 if tier == "quick" else 3
     for k in range(3):
